@@ -955,6 +955,7 @@ Section RoundTrip.
   Notation type_kw := (type_kw py_int py_hex py_float).
   Notation parse_kw := (parse_kw py_int py_hex py_float).
   Notation parse := (parse py_int py_hex py_float).
+  Notation parse_toks := (parse_toks py_int py_hex py_float).
   Notation build := (build host_ok localhost_ip).
   Notation create := (create py_int py_hex py_float host_ok localhost_ip).
 
@@ -1012,16 +1013,16 @@ Section RoundTrip.
       eapply parse_kw_cons with (prm := (n_productid, TInt, r2)); [exact S2 | reflexivity | |].
       { unfold type_kw, pty. simpl. rewrite Hp. reflexivity. }
       eapply parse_kw_cons with (prm := (n_serialnr, TStr, r3)); [exact S3 | reflexivity | reflexivity | reflexivity]. }
-    assert (PA : parse T d (str_of "usbtmc" ++ join [P1; P2; P3])
+    assert (PA : parse_toks T d (str_of "usbtmc" :: [P1; P2; P3])
                  = Ok [(n_productid, VInt zp); (n_serialnr, VStr serial); (n_vendorid, VInt zv)]).
-    { unfold parse. rewrite Tk. cbn [length Nat.ltb Nat.leb hd tl].
+    { unfold parse_toks. cbn [length Nat.ltb Nat.leb hd tl].
       replace (str_eqb (lower (str_of "usbtmc")) (t_iface T)) with true by (vm_compute; reflexivity).
       cbn [negb]. cbv iota.
       assert (FP : filter is_pos [P1; P2; P3] = []) by (simpl; unfold is_pos; rewrite W1, W2, W3; reflexivity).
       assert (FK : filter is_kw [P1; P2; P3] = [P1; P2; P3]) by (simpl; rewrite W1, W2, W3; reflexivity).
       rewrite FP, FK, KW. replace (parse_pos py_int py_float (t_pos T) []) with (Some (@nil (str * value))) by reflexivity.
       destruct r1, r2, r3; reflexivity. }
-    unfold create. rewrite Tk. cbn [length Nat.ltb Nat.leb hd].
+    unfold create, create_toks. rewrite Tk. cbn [length Nat.ltb Nat.leb hd].
     replace (lower (str_of "usbtmc")) with (str_of "usbtmc") by (vm_compute; reflexivity).
     rewrite F. fold T. rewrite PA.
     unfold build, usbtmc_entry, e_ctor, e_kind.
@@ -1154,4 +1155,217 @@ Proof.
   destruct (find_entry E (lower (hd [] (tokenise s)))) as [e|] eqn:F.
   - exact (create_parse_Err py_int py_hex py_float host_ok localhost_ip E d s e F (H e eq_refl)).
   - exact (create_unknown_interface py_int py_hex py_float host_ok localhost_ip E d s F).
+Qed.
+
+(* ================================================================== Part 6: the allowed outcomes *)
+
+Lemma same_key_spec : forall k q, same_key k q = true <-> is_kw q = true /\ key q = k.
+Proof.
+  intros k q. unfold same_key. rewrite andb_true_iff, str_eqb_eq. tauto.
+Qed.
+
+Lemma is_pos_kw : forall q, is_pos q = negb (is_kw q).
+Proof. reflexivity. Qed.
+
+(* a variant keeps the fields without '=', only drops keyword parts, and keeps (at least) one part
+   for every keyword not decided before *)
+Lemma variants_spec : forall parts chosen parts', In parts' (variants chosen parts) ->
+  filter is_pos parts' = filter is_pos parts /\
+  (forall q, In q parts' -> In q parts) /\
+  (forall q, In q parts -> is_kw q = true -> mem (key q) chosen = false ->
+     exists q', In q' parts' /\ is_kw q' = true /\ key q' = key q).
+Proof.
+  induction parts as [|part r IH]; intros chosen parts' H.
+  - simpl in H. destruct H as [<-|[]]. repeat split; auto. intros q [].
+  - simpl in H. destruct (is_kw part) eqn:K.
+    + destruct (mem (key part) chosen) eqn:M.
+      * destruct (IH chosen parts' H) as [A [B D]]. split; [|split].
+        -- simpl. rewrite is_pos_kw, K. exact A.
+        -- intros q I. right. apply B. exact I.
+        -- intros q [<-|I] Kq Mq; [congruence | apply D; assumption].
+      * apply in_app_or in H as [H|H].
+        -- apply in_map_iff in H as [p'' [<- H]].
+           destruct (IH (key part :: chosen) p'' H) as [A [B D]]. split; [|split].
+           ++ simpl. rewrite is_pos_kw, K. exact A.
+           ++ intros q [<-|I]; [left; reflexivity | right; apply B; exact I].
+           ++ intros q Iq Kq Mq. destruct (str_eqb (key q) (key part)) eqn:E.
+              ** apply str_eqb_eq in E. exists part. split; [left; reflexivity|]. split; [exact K | congruence].
+              ** destruct Iq as [<-|Iq]; [rewrite str_eqb_refl in E; discriminate|].
+                 destruct (D q Iq Kq) as [q' [I' [K' E']]].
+                 { simpl. rewrite E. exact Mq. }
+                 exists q'. split; [right; exact I' | split; assumption].
+        -- destruct (existsb (same_key (key part)) r) eqn:X; [|destruct H].
+           destruct (IH chosen parts' H) as [A [B D]]. split; [|split].
+           ++ simpl. rewrite is_pos_kw, K. exact A.
+           ++ intros q I. right. apply B. exact I.
+           ++ intros q [<-|Iq] Kq Mq.
+              ** apply existsb_exists in X as [q2 [I2 S2]]. apply same_key_spec in S2 as [K2 E2].
+                 destruct (D q2 I2 K2) as [q' [I' [K' E']]]; [rewrite E2; exact M|].
+                 exists q'. split; [exact I' | split; [exact K' | congruence]].
+              ** apply D; assumption.
+    + apply in_map_iff in H as [p'' [<- H]].
+      destruct (IH chosen p'' H) as [A [B D]]. split; [|split].
+      * simpl. rewrite is_pos_kw, K. simpl. f_equal. exact A.
+      * intros q [<-|I]; [left; reflexivity | right; apply B; exact I].
+      * intros q [<-|Iq] Kq Mq; [congruence|].
+        destruct (D q Iq Kq Mq) as [q' [I' [K' E']]]. exists q'. split; [right; exact I' | split; assumption].
+Qed.
+
+Lemma no_repeat_variants : forall parts chosen,
+  has_repeated parts = false ->
+  (forall q, In q parts -> is_kw q = true -> mem (key q) chosen = false) ->
+  variants chosen parts = [parts].
+Proof.
+  induction parts as [|part r IH]; intros chosen H Hc; [reflexivity|].
+  simpl in H. apply orb_false_iff in H as [H1 H2]. simpl.
+  destruct (is_kw part) eqn:K.
+  - simpl in H1. rewrite (Hc part (or_introl eq_refl) K), H1. rewrite app_nil_r.
+    rewrite (IH (key part :: chosen) H2); [reflexivity|].
+    intros q Iq Kq. simpl. rewrite (Hc q (or_intror Iq) Kq), orb_false_r.
+    destruct (str_eqb (key q) (key part)) eqn:E; [|reflexivity].
+    exfalso. apply str_eqb_eq in E.
+    assert (X : existsb (same_key (key part)) r = true).
+    { apply existsb_exists. exists q. split; [exact Iq | apply same_key_spec; auto]. }
+    congruence.
+  - rewrite (IH chosen H2); [reflexivity|]. intros q Iq. apply Hc. right. exact Iq.
+Qed.
+
+Lemma last_kw_In : forall p parts v, last_kw p parts = Some v ->
+  exists q, In q parts /\ key q = p /\ val q = v.
+Proof.
+  intros p parts. induction parts as [|part r IH]; intros v H; [discriminate|]. simpl in H.
+  destruct (last_kw p r) as [v'|] eqn:L.
+  - inversion H; subst. destruct (IH v eq_refl) as [q [I [A B]]]. exists q. split; [right; exact I | auto].
+  - destruct (str_eqb (key part) p) eqn:E; [|discriminate]. inversion H; subst. apply str_eqb_eq in E.
+    exists part. split; [left; reflexivity | auto].
+Qed.
+
+Lemma last_kw_None : forall p parts, last_kw p parts = None <-> (forall q, In q parts -> key q <> p).
+Proof.
+  intros p parts. induction parts as [|part r IH]; simpl.
+  - split; [intros _ q [] | reflexivity].
+  - destruct (last_kw p r) as [v|] eqn:L.
+    + split; [discriminate|]. intro H. exfalso. destruct (last_kw_In p r v L) as [q [I [A _]]].
+      apply (H q (or_intror I) A).
+    + destruct (str_eqb (key part) p) eqn:E.
+      * split; [discriminate|]. intro H. exfalso. apply str_eqb_eq in E. apply (H part (or_introl eq_refl) E).
+      * split; [|reflexivity]. intros _ q [<-|I]; [apply str_eqb_neq; exact E | apply IH; [reflexivity | exact I]].
+Qed.
+
+Section AllowedProofs.
+  Variable py_int : str -> option Z.
+  Variable py_hex : str -> option Z.
+  Variable py_float : str -> option N.
+  Variable host_ok : str -> bool.
+  Variable localhost_ip : str.
+  Notation type_pos := (type_pos py_int py_float).
+  Notation type_kw := (type_kw py_int py_hex py_float).
+  Notation create := (create py_int py_hex py_float host_ok localhost_ip).
+  Notation create_toks := (create_toks py_int py_hex py_float host_ok localhost_ip).
+  Notation allowed := (allowed py_int py_hex py_float host_ok localhost_ip).
+
+  (* what every allowed transport satisfies: as C14_faithful, with "the last part p=v" replaced by
+     "one of the parts p=v the string holds" *)
+  Definition faithful_any (E : list entry) (d : dict) (s : str) (t : transport) : Prop :=
+    exists e itok parts ps,
+      tokenise s = itok :: parts /\ In e E /\ t_iface (e_tbl e) = lower itok /\ tr_kind t = e_kind e /\
+      (forall p, get p (tr_args t) = option_map (norm_arg localhost_ip (e_kind e) p) (arg_source e ps p)) /\
+      (forall p, (exists q, In q parts /\ is_kw q = true /\ key q = p) ->
+         exists q prm x, In q parts /\ is_kw q = true /\ key q = p /\
+                         find_param p (t_kw (e_tbl e)) = Some prm /\ type_kw (pty prm) (val q) = Some x /\
+                         get p ps = Some x) /\
+      (forall k prm tok, nth_error (t_pos (e_tbl e)) k = Some prm -> nth_error (filter is_pos parts) k = Some tok ->
+         exists x, type_pos (pty prm) tok = Some x /\ get (pname prm) ps = Some x) /\
+      (forall p, given_nothing (e_tbl e) parts p ->
+         get p ps = if mem p (names (e_tbl e)) then get p d else None) /\
+      (forall p, ~ In p (names (e_tbl e)) -> get p ps = None).
+
+  Lemma in_filter_kw : forall q parts, In q (filter is_kw parts) <-> In q parts /\ is_kw q = true.
+  Proof. intros q parts. apply filter_In. Qed.
+
+  (* core: a transport created from the interface token and a variant of the fields *)
+  Lemma variant_faithful : forall E d s itok parts parts' t,
+    entries_wf E = true -> tokenise s = itok :: parts ->
+    filter is_pos parts' = filter is_pos parts ->
+    (forall q, In q parts' -> In q parts) ->
+    (forall q, In q parts -> is_kw q = true -> exists q', In q' parts' /\ is_kw q' = true /\ key q' = key q) ->
+    create_toks E d (itok :: parts') = Ok t -> faithful_any E d s t.
+  Proof.
+    intros E d s itok parts parts' t WF Tk A B D H.
+    destruct (faithful_create_toks py_int py_hex py_float host_ok localhost_ip E d _ t WF H)
+      as [e [itok0 [parts0 [ps [Tk0 [I [Hi [Hk [_ [C0 [C1 [C2 [C3 C4]]]]]]]]]]]]].
+    inversion Tk0; subst itok0 parts0. clear Tk0.
+    exists e, itok, parts, ps. repeat split; auto.
+    - intros p [q [Iq [Kq Eq]]].
+      destruct (D q Iq Kq) as [q' [I' [K' E']]].
+      destruct (last_kw p (filter is_kw parts')) as [v|] eqn:L.
+      + destruct (C1 p v L) as [prm [x [F [Ty G]]]].
+        destruct (last_kw_In _ _ _ L) as [q2 [I2 [A2 B2]]]. apply in_filter_kw in I2 as [I2 K2].
+        exists q2, prm, x. subst v. repeat split; auto.
+      + exfalso. rewrite last_kw_None in L. apply (L q'); [apply in_filter_kw; auto | congruence].
+    - intros k prm tok Hp Ht. apply (C2 k prm tok Hp). rewrite A. exact Ht.
+    - intros p [L PT]. apply C3. split.
+      + rewrite last_kw_None in L |- *. intros q Iq. apply in_filter_kw in Iq as [Iq Kq].
+        apply L. apply in_filter_kw. auto.
+      + rewrite A. exact PT.
+  Qed.
+
+  (* EVERY allowed outcome is the descriptor error or a faithful transport *)
+  Lemma allowed_faithful : forall E d s t,
+    entries_wf E = true -> In (Ok t) (allowed E d s) -> faithful_any E d s t.
+  Proof.
+    intros E d s t WF H. unfold Model.allowed in H. destruct H as [H|H].
+    - (* the code's own behaviour *)
+      unfold Model.create in H.
+      destruct (tokenise s) as [|itok parts] eqn:Tk; [discriminate|].
+      apply (variant_faithful E d s itok parts parts t WF Tk eq_refl); auto.
+      intros q Iq Kq. exists q. auto.
+    - apply in_app_or in H as [H|H].
+      + apply in_map_iff in H as [parts' [H V]].
+        destruct (tokenise s) as [|itok parts] eqn:Tk.
+        * simpl in V. destruct V as [<-|[]]. discriminate.
+        * simpl in H, V. destruct (variants_spec parts [] parts' V) as [A [B D]].
+          apply (variant_faithful E d s itok parts parts' t WF Tk A B); [|exact H].
+          intros q Iq Kq. apply (D q Iq Kq). reflexivity.
+      + destruct (open_err E s); [destruct H as [H|[]]; discriminate | destruct H].
+  Qed.
+
+  Lemma allowed_has_pinned : forall E d s, In (create E d s) (allowed E d s).
+  Proof. intros. left. reflexivity. Qed.
+
+  (* nothing is loosened for a strict, canonically written descriptor without repeated keyword *)
+  Lemma allowed_tight : forall E d s o, open_err E s = false -> In o (allowed E d s) -> o = create E d s.
+  Proof.
+    intros E d s o HO H. unfold Model.allowed in H. rewrite HO, app_nil_r in H.
+    destruct H as [H|H]; [congruence|].
+    unfold open_err in HO. apply orb_false_iff in HO as [HO _]. apply orb_false_iff in HO as [HR _].
+    rewrite (no_repeat_variants _ [] HR) in H by reflexivity. simpl in H. destruct H as [H|[]].
+    subst o. unfold Model.create. destruct (tokenise s) as [|a b]; reflexivity.
+  Qed.
+End AllowedProofs.
+
+(* the documented form iface:part:part... is strict *)
+Lemma needs_bracket_plain : forall p, plain p -> needs_bracket p = false.
+Proof.
+  intros p [Hc Hh]. unfold needs_bracket.
+  assert (X : existsb (N.eqb c_colon) p = false).
+  { clear Hh. induction Hc as [|c p Hc H IH]; [reflexivity|]. cbn [existsb]. rewrite IH.
+    destruct (c_colon =? c) eqn:E; [apply N.eqb_eq in E; congruence | reflexivity]. }
+  rewrite X. destruct p as [|c p]; [contradiction|]. simpl.
+  destruct (c =? c_lbr) eqn:E; [apply N.eqb_eq in E; contradiction | reflexivity].
+Qed.
+
+Lemma render_plain : forall parts, Forall plain parts -> flat_map render_part parts = join parts.
+Proof.
+  intros parts H. induction H as [|p parts Hp H IH]; [reflexivity|].
+  cbn [flat_map join]. rewrite IH. unfold render_part. rewrite (needs_bracket_plain p Hp). reflexivity.
+Qed.
+
+Lemma strict_join : forall iface parts,
+  no_colon iface -> iface <> [] -> Forall plain parts -> strict (iface ++ join parts) = true.
+Proof.
+  intros iface parts Hnc Hne Hp. unfold strict. rewrite (tokenise_join iface parts Hnc Hne Hp).
+  unfold render. rewrite (render_plain parts Hp), str_eqb_refl. cbn [tl andb].
+  apply forallb_forall. intros p I. rewrite Forall_forall in Hp.
+  rewrite (needs_bracket_plain p (Hp p I)). reflexivity.
 Qed.
